@@ -105,6 +105,10 @@ int main(void) {
              * C16 is about parameters, so drop that session state here */
             ZSTD_CCtx_reset(cctx, ZSTD_reset_session_only);
             if (ZSTD_isError(r)) dump(cls(r)); else { char st[200]; header_facts(dst, r, 0, hf); sprintf(st, "ok %s", hf); dump(st); }
+        } else if (!strcmp(a, "c2") && kind == 'c') {
+            /* ZSTD_compress2 into a destination of x bytes (x = 1: guaranteed too small) */
+            size_t r = ZSTD_compress2(cctx, dst, (size_t)x, src, 3000);
+            dump(ZSTD_isError(r) ? "err:other" : "ok");
         } else dump("bad-op");
         fflush(stdout);
     }
